@@ -20,6 +20,7 @@ import (
 	"math/rand"
 	"runtime"
 	"sort"
+	"strings"
 	"time"
 
 	"github.com/olric-data/olric/internal/cluster/partitions"
@@ -122,6 +123,11 @@ func (s *Service) scanFragmentForEviction(partID uint64, name string, f *fragmen
 	var maxKeyCount = 20
 	var maxTotalCount = 100
 	var totalCount = 0
+
+	// name is the fragment name: the DMap's name with the "dmap." prefix. Deleting the expired
+	// keys through a DMap called "dmap.<name>" leaves the copies on the backups and on the
+	// previous owners behind.
+	name = strings.TrimPrefix(name, "dmap.")
 
 	dm, err := s.getOrCreateDMap(name)
 	if err != nil {
